@@ -3,9 +3,26 @@
 import json
 
 CHECKS = {}  # filled by register()
+# additions made after the seeded-change rounds (DESIGN 13)
+EXTRA = {
+ "C01": " Comment palette includes ASCII control characters that str.splitlines() would treat as line ends and a comment block that looks like a source header.",
+ "C02": " Rows with 16-17 significant digits must equal the correctly rounded double of their spelling; a requested extra column must follow its row under sort_nodes=True.",
+ "C04": " after_edit: traverse, re-parent a node through its handle / re-root without sorting, traverse again - the second traversal is the structural recursion over the EDITED table. Auxiliary concrete runs (not solver claims): chain of 10^5 nodes, leave-only comb of 18000 nodes.",
+ "C05": " The table form carries a 64-bit integer key column (not representable in float64); the tree form carries two columns that are one array object.",
+ "C06": " Removal sets are passed as list / set / ndarray / generator / filter object; to_subtree on every numbering of 4-node (5 thorough) trees incl. descendants stored before a removed ancestor.",
+ "C08": " after_change: query, then re-root / sort / re-parent in place, query the resulting tree again.",
+ "C09": " Histories include pid writes through tree handles; after every step a kept branch's segments are still its consecutive node pairs.",
+ "C11": " remeasure: measure, scale in place or through swcgeom.transforms.Scale, measure the same / the derived object again.",
+ "C12": " custom_names: trees whose coordinate / radius columns have non-default SWCNames.",
+ "C14": " Levels 1-2 are re-evaluated on the same tree object after a radius was changed through a node handle.",
+ "C18": " Auxiliary concrete runs (not solver claims): has_cyclic and DisjointSetUnion on 3000-node tables.",
+ "C19": " Auxiliary concrete run (not a solver claim): 150 lazily loaded members, each file loaded at most once over two iterations, indexing and chaining.",
+ "C20": " The same ToImageStack object renders the same tree again after a node was moved through its handle: the cones carry the new position.",
+}
 NOT_YET = {}
 
 def register(pid, text, note, technique, design_ref):
+    text = text + EXTRA.get(pid, "")
     CHECKS[pid] = dict(property_id=pid, quick_cmd=f"./vcheck {pid} --tier quick", thorough_cmd=f"./vcheck {pid} --tier thorough",
                        evidence_file=f"evidence/{pid}.json", replay_cmd_template="./vcheck --replay {path}", engine="symv",
                        level_claimed=dict(category="model_checking", text=text, design_ref=design_ref), level_note=note, technique=technique)
